@@ -419,8 +419,24 @@ func genSpec(t *rapid.T, wide bool) *Spec {
 		n = rapid.SampledFrom([]int{23, 24, 25, 30, 255, 256, 257}).Draw(t, "nmany")
 	}
 	seen := map[string]bool{}
+	// URLs that differ LATE: every URL of the bundle shares a prefix of 40 .. 1000 octets and differs
+	// in its last octet; the prefix itself and the prefix plus two octets are there as well (an index
+	// that compares, hashes or copies only the beginning of a key, or its length, merges them)
+	family := ""
+	if !many && n >= 2 && rapid.IntRange(0, 7).Draw(t, "latefamily") == 0 {
+		family = "https://a.example/" + strings.Repeat("p", rapid.SampledFrom([]int{22, 44, 45, 46, 47, 100, 237, 238, 300, 1000}).Draw(t, "latefamilylen"))
+	}
 	for i := 0; i < n; i++ {
 		u := bundleURL(t, "url")
+		if family != "" {
+			u = family + string(rune('a'+i%26))
+			switch i {
+			case 2:
+				u = family
+			case 3:
+				u = family + "ab"
+			}
+		}
 		key := mustURL(u).String()
 		if seen[key] {
 			u += fmt.Sprintf("%sdedup=%d", map[bool]string{true: "&", false: "?"}[strings.Contains(u, "?")], i)
@@ -656,7 +672,6 @@ func AlignTo(s *Spec, target string, mod, off int) bool {
 	}
 	return false
 }
-
 
 // ShapeSpec builds the bundle of a dense one-dimensional sweep: everything small except ONE
 // size or count, which is n. Shapes: "exchanges" (n exchanges with one-octet bodies), "headers"
